@@ -2006,7 +2006,9 @@ Definition bump_cause (s : state) : Prop :=
 
 Inductive shstep (s s' : state) : Prop :=
   | sh_same : shutdown_phase s' = shutdown_phase s -> after_shutdown_events s' = after_shutdown_events s -> shstep s s'
-  | sh_bump : shutdown_phase s' = shutdown_phase s -> bump_cause s -> shstep s s'
+  | sh_bump : shutdown_phase s' = shutdown_phase s ->
+      (after_shutdown_events s' = after_shutdown_events s \/ shutdown_phase s = 2) ->
+      bump_cause s -> shstep s s'
   | sh_begin : shutdown_phase s = 0 -> shutdown_phase s' = 1 ->
       after_shutdown_events s' = after_shutdown_events s -> shstep s s'
   | sh_return : shutdown_phase s = 1 -> shutdown_phase s' = 2 ->
@@ -2026,7 +2028,7 @@ Ltac sh_same_tac := apply sh_same; sh_simpl; reflexivity.
 (** after the guards have been destructed: a step whose result is built on
     [bump_after_shutdown s] *)
 Ltac sh_bump_tac Hcause :=
-  apply sh_bump; [sh_simpl; reflexivity|exact Hcause].
+  apply sh_bump; [sh_simpl; reflexivity|sh_simpl; apply bump_after|exact Hcause].
 
 Lemma cause_task s a t kd :
   match find_task a (tasks s) with
@@ -2081,7 +2083,7 @@ Proof.
   33: { (* EFs *)
     destruct (busy s a); [discriminate|].
     destruct op; destruct (find_file t (files s)); try discriminate; destr H; injection H as <-;
-      apply sh_bump; try (sh_simpl; reflexivity);
+      apply sh_bump; try (sh_simpl; reflexivity); try (sh_simpl; apply bump_after);
       try (match goal with Hb : _ || _ = true |- _ => apply orb_prop in Hb as [Hb|Hb] end);
       try (match goal with Hb : _ && _ = true |- _ => apply andb_prop in Hb as [Hb _] end);
       try (match goal with Hb : _ && _ = true |- _ => apply andb_prop in Hb as [Hb _] end);
@@ -2159,7 +2161,7 @@ Proof.
     - apply (J2 SSub); [discriminate|exact A].
     - apply (J2 SReq); [discriminate|exact B].
     - apply (J2 SIO); [discriminate|exact C]. }
-  apply step_shstep in H. destruct H as [Hp _|Hp _|Hp0 Hp1 _|Hp0 Hp1 _ A B C].
+  apply step_shstep in H. destruct H as [Hp _|Hp _ _|Hp0 Hp1 _|Hp0 Hp1 _ A B C].
   - rewrite Hp. split; [intros E; apply Hkeep; auto|exact I3].
   - rewrite Hp. split; [intros E; apply Hkeep; auto|exact I3].
   - rewrite Hp1. split; [discriminate|lia].
@@ -2601,3 +2603,204 @@ Proof.
     try congruence; try (left; repeat split; assumption); try (right; reflexivity).
   exfalso. destruct (k_final x); congruence.
 Qed.
+
+Definition ann_inv (s : state) : Prop :=
+  forall t c a, find_coord t (coords s) = Some c -> is_user a = false -> member a c ->
+    ~ (In a (c_owing c) /\ is_ann a c) /\
+    exists x, find_task a (tasks s) = Some x /\ k_t x = t /\
+              (live_sub x c \/ (live_fin x /\ is_ann a c)).
+
+Lemma remove_z_neq a0 l b : In b (remove_z a0 l) -> b <> a0.
+Proof. unfold remove_z. intros H. apply filter_In in H as [_ H]. intros ->. rewrite Z.eqb_refl in H. discriminate. Qed.
+
+Lemma ann_inv_step s e s' :
+  coords_inv s -> ns_inv s -> ann_inv s -> step s e = Some s' -> ann_inv s'.
+Proof.
+  intros Icv Ins I H t c' a Hc' Hu Hm.
+  pose proof (step_coords_step _ _ _ H) as [Hcold Hcfresh].
+  pose proof (step_evolve _ _ _ H) as (Hold & _ & _ & _).
+  destruct (find_coord t (coords s)) as [c|] eqn:Ec.
+  2: { exfalso. rewrite (Hcfresh t c' Hc' Ec) in Hm. destruct Hm as [[]|Hm]. now apply Hm. }
+  destruct (Hcold t c Ec) as (c'' & Hc'' & Hcs). rewrite Hc' in Hc''. injection Hc'' as <-.
+  pose proof (done_monotone_cstep _ _ Hcs) as Hdone.
+  (* an announce that ended removed [a] from the announcers of its transfer *)
+  assert (Hdel : forall t1 c1, find_coord t1 (coords s) = Some c1 -> ann_phase a (c_announcers c1) = Some 5 ->
+            coords s' = upd_coord t1 (fun c0 => c_with_ann c0 (c_owing c0) (ann_del a (c_announcers c0))) (coords s) ->
+            False).
+  { intros t1 c1 Hc1 Hph Hco.
+    assert (Hm1 : member a c1) by (right; unfold is_ann; rewrite Hph; discriminate).
+    destruct (I t1 c1 a Hc1 Hu Hm1) as (Hex1 & x1 & Hx1 & Hkt1 & _).
+    assert (Et : t1 = t).
+    { destruct Hm as [Hm|Hm].
+      - (* owing unchanged by the update *)
+        rewrite Hco, find_coord_upd in Hc' by reflexivity. destruct (t =? t1) eqn:E; [lia|].
+        rewrite Ec in Hc'. injection Hc' as <-.
+        destruct (I t c a Ec Hu (or_introl Hm)) as (_ & x2 & Hx2 & Hkt2 & _). congruence.
+      - rewrite Hco, find_coord_upd in Hc' by reflexivity. destruct (t =? t1) eqn:E; [lia|].
+        rewrite Ec in Hc'. injection Hc' as <-.
+        destruct (I t c a Ec Hu (or_intror Hm)) as (_ & x2 & Hx2 & Hkt2 & _). congruence. }
+    clear Hkt1. subst t1. rewrite Ec in Hc1. injection Hc1 as <-.
+    rewrite Hco, find_coord_upd, Z.eqb_refl, Ec in Hc' by reflexivity. cbn in Hc'. injection Hc' as <-.
+    destruct Hm as [Hm|Hm]; cbn in Hm.
+    - apply Hex1. split; [exact Hm|]. unfold is_ann. rewrite Hph. discriminate.
+    - unfold is_ann in Hm. cbn in Hm. now rewrite ann_phase_del_same in Hm. }
+  (* an old member stays live *)
+  assert (Gold : member a c -> (In a (c_owing c') -> In a (c_owing c)) ->
+            exists x', find_task a (tasks s') = Some x' /\ k_t x' = t /\
+                       (live_sub x' c' \/ (live_fin x' /\ is_ann a c'))).
+  { intros Hmo Hsub. destruct (I t c a Ec Hu Hmo) as (Hex & x & Hx & Hkt & Hlive).
+    destruct (Hold a x Hx) as (x' & Hx' & Hts & Hl). exists x'. split; [exact Hx'|].
+    destruct (tstep_static _ _ _ Hts) as (_ & E & _). split; [congruence|].
+    destruct Hlive as [Hls|[Hlf Hia]].
+    - rewrite <- Hkt in Ec.
+      destruct (live_sub_step _ _ _ _ _ _ c' Hls Hts Hl Ec Hdone) as [Hok|[P4 P5]]; [now left|exfalso].
+      destruct (lo_annend _ _ _ _ _ Hl (or_intror (conj P4 P5))) as (t1 & c1 & Hc1 & Hph & Hco).
+      eapply Hdel; eauto.
+    - destruct (live_fin_step _ _ _ Hlf Hts) as [Hok|Hend].
+      + right. split; [exact Hok|]. destruct Hm as [Hm|Hm]; [|exact Hm].
+        exfalso. apply Hex. split; [now apply Hsub|exact Hia].
+      + exfalso. destruct Hlf as (_ & _ & Hst).
+        destruct (lo_annend _ _ _ _ _ Hl (or_introl (conj Hst Hend))) as (t1 & c1 & Hc1 & Hph & Hco).
+        eapply Hdel; eauto. }
+  destruct (step_ann_change _ _ _ _ _ _ H Ec Hc')
+    as [[S1 S2]|a0 Eo Ea Hns Hd' Hal Htasks|a0 Eo Ea Hmem Hnone|a0 x0 Eo Ea Hmem Hnone Hx0 Hkt0 Hcase].
+  - (* no new member *)
+    assert (Hmo : member a c) by (destruct Hm as [Hm|Hm]; [left; auto|right; auto]).
+    split; [|apply Gold; [exact Hmo|exact (S1 a)]].
+    intros [X Y]. destruct (I t c a Ec Hu Hmo) as (Hex & _). apply Hex. split; [exact (S1 a X)|exact (S2 a Y)].
+  - (* cancel of a transfer that is not started *)
+    assert (Hno : ~ member a c).
+    { intros Hmo. destruct (I t c a Ec Hu Hmo) as (_ & x & Hx & Hkt & Hlive).
+      destruct (Ins t c Ec Hns a x Hx Hkt) as (Nk & Np & Ne).
+      destruct Hlive as [(_ & _ & [P|[P|[_ P]]])|[(Nk2 & _) _]]; try lia; try congruence.
+      rewrite Hns in P. discriminate. }
+    assert (Ha : a = a0).
+    { destruct Hm as [Hm|Hm].
+      - rewrite Eo in Hm. destruct Hm as [->|Hm]; [reflexivity|]. exfalso. apply Hno. now left.
+      - exfalso. apply Hno. right. unfold is_ann in *. now rewrite Ea in Hm. }
+    subst a0. split.
+    + intros [_ Y]. apply Hno. right. unfold is_ann in *. now rewrite Ea in Y.
+    + destruct Hal as [Hal|[Hal|Hal]]; [congruence| |].
+      * exfalso. apply Hno. right. unfold in_callback in Hal. rewrite Ec in Hal.
+        destruct (Icv t c Ec) as [_ _ Icl Icb _ _ _]. unfold is_ann.
+        apply orb_prop in Hal as [Hal|Hal].
+        -- destruct (c_cl_runner c) as [b|] eqn:Er; [|discriminate]. assert (b = a) by lia. subst b.
+           rewrite (proj1 (Icl a) eq_refl). discriminate.
+        -- destruct (c_cb_runner c) as [b|] eqn:Er; [|discriminate]. assert (b = a) by lia. subst b.
+           rewrite (proj1 (Icb a) eq_refl). discriminate.
+      * unfold acting_task in Hal. destruct (find_task a (tasks s)) as [x|] eqn:Ex; [|discriminate].
+        apply andb_prop in Hal as [Hkt Hst]. assert (Hkt' : k_t x = t) by lia.
+        destruct (Ins t c Ec Hns a x Ex Hkt') as (Nk & Np & Ne).
+        exists x. rewrite Htasks. split; [exact Ex|]. split; [exact Hkt'|]. left.
+        split; [exact Nk|]. split; [|right; right; auto].
+        apply orb_prop in Hst as [Hst|Hst]; apply tst_eqb_true in Hst; [exact Hst|].
+        rewrite Hst in Ne. discriminate.
+  - (* the canceller starts the announce it owes *)
+    assert (Hmo : member a c).
+    { destruct Hm as [Hm|Hm]; [left; rewrite Eo in Hm; now apply remove_z_sub in Hm|].
+      destruct (Z.eq_dec a0 a) as [->|Hne]; [left; now apply mem_z_true|].
+      right. unfold is_ann in *. now rewrite Ea, ann_phase_set_other in Hm by exact Hne. }
+    split.
+    + intros [X Y]. rewrite Eo in X. pose proof (remove_z_neq _ _ _ X) as Hne. apply remove_z_sub in X.
+      destruct (I t c a Ec Hu Hmo) as (Hex & _). apply Hex. split; [exact X|].
+      unfold is_ann in *. rewrite Ea, ann_phase_set_other in Y by congruence. exact Y.
+    + apply Gold; [exact Hmo|]. intros X. rewrite Eo in X. now apply remove_z_sub in X.
+  - (* the submission task / the final task starts its announce *)
+    destruct (Z.eq_dec a a0) as [->|Hne].
+    + split.
+      * intros [X _]. rewrite Eo in X. apply mem_z_true in X. congruence.
+      * assert (Hia : is_ann a0 c') by (unfold is_ann; rewrite Ea, ann_phase_set_same; discriminate).
+        destruct Hcase as [(Nk & Nst & Np & Htasks)|(Nk & Nf & Nst & Hx0')].
+        -- exists x0. rewrite Htasks. split; [exact Hx0|]. split; [exact Hkt0|]. left.
+           split; [exact Nk|]. split; [exact Nst|]. auto.
+        -- exists (with_st x0 TAnn). split; [exact Hx0'|]. split; [exact Hkt0|]. right.
+           split; [|exact Hia]. repeat split; assumption.
+    + assert (Hmo : member a c).
+      { destruct Hm as [Hm|Hm]; [left; now rewrite Eo in Hm|].
+        right. unfold is_ann in *. now rewrite Ea, ann_phase_set_other in Hm by congruence. }
+      split.
+      * intros [X Y]. destruct (I t c a Ec Hu Hmo) as (Hex & _). apply Hex. split; [now rewrite Eo in X|].
+        unfold is_ann in *. now rewrite Ea, ann_phase_set_other in Y by congruence.
+      * apply Gold; [exact Hmo|]. intros X. now rewrite Eo in X.
+Qed.
+
+Lemma ann_inv_reachable a b c d e f g h s : reachable (init a b c d e f g h) s -> ann_inv s.
+Proof.
+  apply invariant_reachable2 with (Q := fun s => coords_inv s /\ ns_inv s).
+  - intros s0 Hr. split; [eapply coords_inv_reachable; eauto|eapply ns_inv_reachable; eauto].
+  - intros t c0 a0 Hc. discriminate Hc.
+  - intros s0 ev s1 [Q1 Q2] I H. eapply ann_inv_step; eauto.
+Qed.
+
+(** * Part 17 (C18): the barrier *)
+Lemma runner_is_running a b c d e f g h s t co r :
+  reachable (init a b c d e f g h) s -> find_coord t (coords s) = Some co ->
+  c_cl_runner co = Some r \/ c_cb_runner co = Some r -> is_user r = false ->
+  exists x, find_task r (tasks s) = Some x /\ k_t x = t /\ (k_st x = TMain \/ k_st x = TAnn).
+Proof.
+  intros Hr Hc Hrun Hu.
+  destruct (coords_inv_reachable _ _ _ _ _ _ _ _ _ Hr t co Hc) as [_ _ Icl Icb _ _ _].
+  assert (Hm : member r co).
+  { right. unfold is_ann. destruct Hrun as [E|E]; [apply Icl in E|apply Icb in E]; rewrite E; discriminate. }
+  destruct (ann_inv_reachable _ _ _ _ _ _ _ _ _ Hr t co r Hc Hu Hm) as (_ & x & Hx & Hkt & Hlive).
+  exists x. split; [exact Hx|]. split; [exact Hkt|].
+  destruct Hlive as [(_ & Hst & _)|[(_ & _ & Hst) _]]; auto.
+Qed.
+
+Definition user_quiet (s : state) : Prop :=
+  forall t co r, find_coord t (coords s) = Some co ->
+    c_cl_runner co = Some r \/ c_cb_runner co = Some r -> is_user r = false.
+
+Lemma barrier_step a b c d e0 f g h s e s' :
+  reachable (init a b c d e0 f g h) s -> after_shutdown_events s = 0 ->
+  (shutdown_phase s = 2 -> user_quiet s) -> step s e = Some s' -> after_shutdown_events s' = 0.
+Proof.
+  intros Hr H0 Hq H. apply step_shstep in H.
+  destruct H as [_ Ha|Hp [Ha|Hp2] Hc|_ _ Ha|_ _ Ha _ _ _]; try congruence.
+  exfalso.
+  destruct (shutdown_inv_reachable _ _ _ _ _ _ _ _ _ Hr) as (_ & Hj & _). destruct (Hj Hp2) as (J1 & J2 & J3).
+  pose proof (joined_no_running _ _ _ _ _ _ _ _ _ Hr J1 J2 J3) as Hnr.
+  destruct Hc as [(r & x & Hx & Hst)|(t & co & r & Hco & Hrun)].
+  - pose proof (Hnr r x Hx) as Hn. rewrite Hst in Hn. discriminate.
+  - pose proof (Hq Hp2 t co r Hco Hrun) as Hu.
+    destruct (runner_is_running _ _ _ _ _ _ _ _ _ _ _ _ Hr Hco Hrun Hu) as (x & Hx & _ & Hst).
+    pose proof (Hnr r x Hx) as Hn. destruct Hst as [Hst|Hst]; rewrite Hst in Hn; discriminate.
+Qed.
+
+(** shutdown is a barrier: if no *user thread* is running cleanups or done
+    callbacks while shutdown has returned (the real cancel() announces
+    synchronously, so only a different user thread cancelling concurrently
+    with shutdown can do that), nothing happens after shutdown returned *)
+Theorem shutdown_barrier a b c d e f g h tr : forall s,
+  run (init a b c d e f g h) tr = Some s ->
+  (forall n s1, run (init a b c d e f g h) (firstn n tr) = Some s1 ->
+                shutdown_phase s1 = 2 -> user_quiet s1) ->
+  after_shutdown_events s = 0.
+Proof.
+  assert (G : forall tr s0 s, reachable (init a b c d e f g h) s0 -> after_shutdown_events s0 = 0 ->
+            run s0 tr = Some s ->
+            (forall n s1, run s0 (firstn n tr) = Some s1 -> shutdown_phase s1 = 2 -> user_quiet s1) ->
+            after_shutdown_events s = 0).
+  { clear tr. induction tr as [|ev r IH]; intros s0 s Hr H0 Hrun Hq; cbn [run] in Hrun.
+    - now injection Hrun as <-.
+    - destruct (step s0 ev) as [s1|] eqn:E; [|discriminate].
+      apply (IH s1 s); [eapply reachable_step; eauto| |exact Hrun|].
+      + eapply barrier_step; eauto. intros Hp. apply (Hq 0%nat s0); [reflexivity|exact Hp].
+      + intros n s2 Hn Hp. apply (Hq (S n) s2); [|exact Hp]. cbn [firstn run]. now rewrite E. }
+  intros s Hrun Hq. eapply G; eauto; [apply reachable_refl|reflexivity].
+Qed.
+
+(** without the hypothesis the barrier does not hold in the model: a user
+    thread may cancel a not-started transfer after shutdown returned and run
+    its done callbacks *)
+Definition barrier_counterexample : list event :=
+  [ ENewTransfer (-1) 0; EAddCallback (-1) 0 7;
+    EShutdownBegin; EStageShutdown SSub; EStageShutdown SReq; EStageShutdown SIO;
+    EStageJoined SSub; EStageJoined SReq; EStageJoined SIO; EShutdownReturn;
+    ECancel (-2) 0 9; EAnnBegin (-2) 0; ECleanupsBegin (-2) 0; ECleanupsEnd (-2) 0; EEventSet (-2) 0;
+    ECallbacksBegin (-2) 0; ECallback (-2) 0 7 ].
+
+Theorem shutdown_barrier_unconditional_refuted :
+  exists s, run (init 1 2 1 10 10 10 2 2) barrier_counterexample = Some s /\
+            shutdown_phase s = 2 /\ after_shutdown_events s = 1.
+Proof. eexists. split; [vm_compute; reflexivity|]. split; reflexivity. Qed.
